@@ -23,6 +23,9 @@
 //	sequence     2-3 writers die one after the other at drawn crash points in one directory
 //	             (optionally starting from a foreign-version entry): invariant after each death,
 //	             then recovery
+//	wfail        a writer process whose file writes fail with EFBIG beyond k bytes (RLIMIT_FSIZE;
+//	             k in {0, 1, len/2, len-1}) while close succeeds: error or success, but the
+//	             final name holds nothing or the reference entry; then recovery
 //	paused       a writer process is stopped (SIGSTOP) while its temp file exists and the final
 //	             name does not; other users open the directory (and compile); the writer
 //	             continues: everybody succeeds, final entry = reference
@@ -49,6 +52,7 @@ import (
 	"io"
 	"os"
 	"os/exec"
+	"os/signal"
 	"path/filepath"
 	"reflect"
 	"sort"
@@ -443,7 +447,7 @@ func childEnv(extra ...string) []string {
 			k = kv[:i]
 		}
 		switch k {
-		case "VERIF_SHARD_OUT", "VERIF_JOURNAL", "VERIF_REPLAY", "VERIF_CRASHPOINT", "C13_REQ", "VERIF_FUZZ_OUT", "GO_TEST_FUZZ_WORKER_ID":
+		case "VERIF_SHARD_OUT", "VERIF_JOURNAL", "VERIF_REPLAY", "VERIF_CRASHPOINT", "C13_REQ", "C13_FSIZE", "VERIF_FUZZ_OUT", "GO_TEST_FUZZ_WORKER_ID":
 			continue
 		}
 		env = append(env, kv)
@@ -568,7 +572,28 @@ func TestChildHelper(t *testing.T) {
 		var one [1]byte
 		os.Stdin.Read(one[:]) // released when the parent closes our stdin
 	}
+	// C13_FSIZE=k: writes to any file fail with EFBIG beyond k bytes while compiling (a write
+	// error part-way through the temp file; close still succeeds)
+	var oldLim syscall.Rlimit
+	limited := false
+	if v := os.Getenv("C13_FSIZE"); v != "" {
+		var k uint64
+		fmt.Sscan(v, &k)
+		signal.Ignore(syscall.SIGXFSZ)
+		if err := syscall.Getrlimit(syscall.RLIMIT_FSIZE, &oldLim); err != nil {
+			t.Fatal(err)
+		}
+		if err := syscall.Setrlimit(syscall.RLIMIT_FSIZE, &syscall.Rlimit{Cur: k, Max: oldLim.Max}); err != nil {
+			t.Fatal(err)
+		}
+		limited = true
+	}
 	cm, cerr, p := safeCompile(ctx, rt, wasm)
+	if limited {
+		if err := syscall.Setrlimit(syscall.RLIMIT_FSIZE, &oldLim); err != nil {
+			t.Fatal(err)
+		}
+	}
 	switch {
 	case p != nil:
 		co.Panic = fmt.Sprint(p)
@@ -610,7 +635,7 @@ func (f fault) param() string {
 	switch f.Kind {
 	case "crash":
 		return f.Point
-	case "trunc":
+	case "trunc", "wfail":
 		return fmt.Sprint(f.Len)
 	case "version":
 		return f.Version
@@ -926,6 +951,8 @@ func (mc *modCtx) runFault(f fault) (msg string, labels []string, infra error) {
 		return mc.faultSequence(f)
 	case "paused":
 		return mc.faultPaused()
+	case "wfail":
+		return mc.faultWriteFail(f)
 	case "entry":
 		class := mc.classify(f.Entry)
 		if class == "" {
@@ -1158,6 +1185,55 @@ func (mc *modCtx) faultPaused() (msg string, labels []string, infra error) {
 		return "", labels, nil
 	}
 	return "", append(labels, "paused:window-never-hit"), nil
+}
+
+// faultWriteFail: a writer process whose file writes fail with EFBIG beyond f.Len bytes
+// (RLIMIT_FSIZE, SIGXFSZ ignored) - the temp file receives f.Len bytes, the next write fails, close
+// succeeds. The process is not killed: CompileModule may report the error or succeed, but the
+// final name must hold nothing or the complete reference entry, and a fresh runtime using the
+// directory must behave like a cold compile.
+func (mc *modCtx) faultWriteFail(f fault) (msg string, labels []string, infra error) {
+	if f.Len < 0 || f.Len >= len(mc.ref) {
+		return "", nil, fmt.Errorf("write-failure offset %d outside 0..%d", f.Len, len(mc.ref)-1)
+	}
+	dir := mc.newDir("wfail")
+	defer os.RemoveAll(dir)
+	r, err := mc.spawn(dir, childTimeout, fmt.Sprintf("C13_FSIZE=%d", f.Len))
+	if err != nil {
+		return "", nil, err
+	}
+	who := fmt.Sprintf("writer process whose writes fail beyond %d of %d bytes", f.Len, len(mc.ref))
+	if r.timedOut || r.signaled {
+		return fmt.Sprintf("%s: process %s\n%s", who, r.status(), r.tail()), nil, nil
+	}
+	if r.out == nil {
+		return "", nil, fmt.Errorf("%s: child produced no result (%s)\n%s", who, r.status(), r.tail())
+	}
+	switch {
+	case r.out.Panic != "":
+		return fmt.Sprintf("%s: CompileModule panicked: %s", who, r.out.Panic), nil, nil
+	case r.out.CompileErr != "":
+		labels = append(labels, "wfail:reported-error")
+	default:
+		labels = append(labels, "wfail:compile-succeeded")
+		if !mc.uncached.equal(r.out.Trace) {
+			return fmt.Sprintf("%s: trace differs from the uncached trace\n got:      %s\n uncached: %s", who, r.out.Trace, mc.uncached), labels, nil
+		}
+	}
+	m, final, temps, infra := mc.checkAfterKill(dir, "after the "+who+" finished,")
+	if m != "" || infra != nil {
+		return m, labels, infra
+	}
+	if final {
+		labels = append(labels, "wfail:final-present-complete")
+	} else {
+		labels = append(labels, "wfail:final-absent")
+	}
+	if len(temps) > 0 {
+		labels = append(labels, "wfail:temp-left")
+	}
+	m, infra = mc.useDir("fresh runtime using the directory after the "+who+" finished", dir)
+	return m, labels, infra
 }
 
 // scanSub reports whether the version directory holds a temp file of the key / the final name.
@@ -1794,6 +1870,9 @@ func runSpec(t *rapid.T, spec *modSpec) {
 		}
 		do(sf)
 		cov.Sequences = append(cov.Sequences, sf.param())
+	}
+	for _, k := range []int{0, 1, len(mc.ref) / 2, len(mc.ref) - 1} {
+		do(fault{Kind: "wfail", Len: k})
 	}
 	do(fault{Kind: "paused"})
 	g, p := rapid.IntRange(2, 8).Draw(t, "goroutines"), rapid.IntRange(2, 4).Draw(t, "processes")
